@@ -51,6 +51,7 @@ func rulesC14(c *Ctx) {
 	ruleLockOrder(c, "client Close")
 	ruleLockOrder(c, "client StartSending")
 	ruleQSkipsDeadSender(c)
+	ruleConvergence(c) // AwaitConverged returns the recorded send / receive errors instead of waiting or reporting success (shared with C13)
 }
 
 func ruleClearPendingTable(c *Ctx) {
@@ -75,7 +76,7 @@ func ruleClearPendingTable(c *Ctx) {
 		}
 		if strings.HasSuffix(canonTerm(fi, ie.X), "pendq.Ops") && canonTerm(fi, ie.Index) == op+".Id" {
 			if a, b := identOf(as.Lhs[0]), identOf(as.Lhs[1]); a != nil && b != nil {
-				pendVar, okVar = a.Name, b.Name
+				pendVar, okVar = varKey(info.ObjectOf(a)), varKey(info.ObjectOf(b))
 				nLookup++
 			}
 		}
@@ -250,53 +251,154 @@ func ruleRequestRegistration(c *Ctx) {
 	} else {
 		c.check(bad == "", rule, q.Name, "operations are registered pending before the request is queued or sent", c.P.pos(q.Decl.Pos()), fmt.Sprintf("%d paths", n), bad)
 	}
-	// handleModifyRequest registers every operation
-	hinfo := h.Pkg.TypesInfo
-	hm := paramObjs(hinfo, h.Decl)[0]
-	registersAll := false
-	for _, st := range h.Decl.Body.List {
-		rs, isR := st.(*ast.RangeStmt)
-		if !isR {
-			continue
-		}
-		if o, p := selectorPath(hinfo, rs.X); o == hm && strings.Join(p, ".") == "Operation" {
-			for _, call := range callsIn(rs.Body) {
-				if isMethod(calleeObj(hinfo, call), modPath+"/client", "Client", "addPendingOp") && len(call.Args) == 1 && objOfIdent(hinfo, call.Args[0]) == objOfIdent(hinfo, rs.Value) {
-					// unconditional: first statement of the body
-					if len(rs.Body.List) >= 1 {
-						if ifs, isIf := rs.Body.List[0].(*ast.IfStmt); isIf && ifs.Init != nil && len(callsIn(ifs.Init)) > 0 && callsIn(ifs.Init)[0] == call {
-							registersAll = true
-						}
-						if es, isEs := rs.Body.List[0].(*ast.ExprStmt); isEs && es.X == call {
-							registersAll = true
-						}
+	// a registration error is recorded as a send error (AwaitConverged then reports it instead of success)
+	{
+		qev := func(n ast.Node) []Event {
+			var out []Event
+			for _, call := range callsIn(n) {
+				obj := calleeObj(info, call)
+				switch {
+				case obj == h.Obj:
+					d := &addEvData{call: call}
+					if as := assignedFromCall(info, n, call); len(as) == 1 {
+						d.err = as[0]
 					}
+					out = append(out, Event{Kind: "register", Node: call, Data: d})
+				case isMethod(obj, modPath+"/client", "Client", "addSendErr"):
+					out = append(out, Event{Kind: "record", Node: call})
+				}
+			}
+			return out
+		}
+		qpaths, _ := enumFunc(q, qev, nil)
+		badRec, nErr := "", 0
+		for _, p := range qpaths {
+			ri := idx(p, "register")
+			if ri < 0 {
+				continue
+			}
+			d := p.Events[ri].Data.(*addEvData)
+			if d.err == nil {
+				badRec = "the error of handleModifyRequest is dropped"
+				continue
+			}
+			if factsAfter(info, p, ri, len(p.Events)).Obj(d.err) == +1 {
+				nErr++
+				if !p.has("record") {
+					badRec = "a request whose operations could not be registered (duplicate pending id) is not recorded as a send error: " + p.describe(c.P)
 				}
 			}
 		}
+		c.check(badRec == "" && nErr >= 1, rule, q.Name, "a registration error is recorded as a send error", c.P.pos(q.Decl.Pos()), fmt.Sprintf("%d error paths, all call addSendErr", nErr), badRec)
 	}
+	// handleModifyRequest registers every operation: one addPendingOp per element, the walk ends early only with its error
+	hinfo := h.Pkg.TypesInfo
+	hm := paramObjs(hinfo, h.Decl)[0]
+	var oploop *ast.RangeStmt
+	inspectNoFuncLit(h.Decl.Body, func(n ast.Node) bool {
+		if rs, ok := n.(*ast.RangeStmt); ok && oploop == nil {
+			if o, p := selectorPath(hinfo, resolveLocal(hinfo, h.Decl, rs.X)); o == hm && strings.Join(p, ".") == "Operation" {
+				oploop = rs
+			}
+		}
+		return true
+	})
 	c.Sites++
-	c.check(registersAll, rule, h.Name, "every operation of the request is registered", c.P.pos(h.Decl.Pos()), "for each m.Operation: addPendingOp(o)", "handleModifyRequest does not register every operation of the request as pending")
-	// addPendingOp: duplicate id is an error, otherwise stored under its id
+	if oploop == nil {
+		c.fail(rule, h.Name, "every operation of the request is registered", c.P.pos(h.Decl.Pos()), "handleModifyRequest has no loop over the request's operations")
+	} else {
+		hev := func(n ast.Node) []Event {
+			var out []Event
+			for _, call := range callsIn(n) {
+				if isMethod(calleeObj(hinfo, call), modPath+"/client", "Client", "addPendingOp") && len(call.Args) == 1 {
+					d := &addEvData{call: call}
+					if as := assignedFromCall(hinfo, n, call); len(as) == 1 {
+						d.err = as[0]
+					}
+					k := "add"
+					if objOfIdent(hinfo, call.Args[0]) != objOfIdent(hinfo, oploop.Value) || oploop.Value == nil {
+						k = "add-other"
+					}
+					out = append(out, Event{Kind: k, Node: call, Data: d})
+				}
+			}
+			return out
+		}
+		lp, _ := enumPaths(hinfo, oploop.Body.List, hev)
+		badReg := ""
+		for _, p := range lp {
+			if p.End == "panic" {
+				continue
+			}
+			ai := idx(p, "add")
+			switch {
+			case p.has("add-other"):
+				badReg = "something other than the current operation is registered: " + p.describe(c.P)
+			case ai < 0 || p.count("add") != 1:
+				badReg = "an operation of the request is not registered exactly once: " + p.describe(c.P)
+			case p.End == "break":
+				badReg = "the walk over the request's operations stops early: the remaining operations are sent without being registered: " + p.describe(c.P)
+			case p.End == "return":
+				d := p.Events[ai].Data.(*addEvData)
+				rs, _ := p.EndNode.(*ast.ReturnStmt)
+				if d.err == nil || factsAfter(hinfo, p, ai, len(p.Events)).Obj(d.err) != +1 || rs == nil || len(rs.Results) != 1 || isNilIdent(hinfo, rs.Results[0]) {
+					badReg = "the walk over the request's operations is left without the registration error: " + p.describe(c.P)
+				}
+			}
+		}
+		c.check(badReg == "" && len(lp) >= 2, rule, h.Name, "every operation of the request is registered", c.P.pos(oploop.Pos()), fmt.Sprintf("%d paths through the loop body: addPendingOp(o) once, early exit only with its error", len(lp)), badReg)
+	}
+	// addPendingOp: a duplicate id is an error and nothing is overwritten; otherwise the operation itself is stored under its id
 	ap := c.need("client", "Client", "addPendingOp")
 	if ap != nil {
 		ainfo := ap.Pkg.TypesInfo
 		aop := paramName(ap, 0)
-		stores := false
-		ast.Inspect(ap.Decl.Body, func(n ast.Node) bool {
-			if as, ok := n.(*ast.AssignStmt); ok && len(as.Lhs) == 1 {
-				if ie, ok := ast.Unparen(as.Lhs[0]).(*ast.IndexExpr); ok {
-					if _, p := selectorPath(ainfo, ie.X); strings.HasSuffix(strings.Join(p, "."), "pendq.Ops") {
-						if o, kp := selectorPath(ainfo, ie.Index); o != nil && o.Name() == aop && strings.Join(kp, ".") == "Id" {
-							stores = true
+		aev := func(n ast.Node) []Event {
+			var out []Event
+			inspectNoFuncLit(n, func(m ast.Node) bool {
+				as, ok := m.(*ast.AssignStmt)
+				if !ok || len(as.Lhs) != 1 || len(as.Rhs) != 1 {
+					return true
+				}
+				ie, ok := ast.Unparen(as.Lhs[0]).(*ast.IndexExpr)
+				if !ok || !strings.HasSuffix(canonTerm(ap, ie.X), "pendq.Ops") {
+					return true
+				}
+				k := "store-other"
+				if canonTerm(ap, ie.Index) == aop+".Id" {
+					if cl, isLit := unAddr(resolveLocal(ainfo, ap.Decl, as.Rhs[0])).(*ast.CompositeLit); isLit {
+						if f := compositeFields(cl); f["Op"] != nil && canonTerm(ap, f["Op"]) == aop {
+							k = "store"
 						}
 					}
 				}
+				out = append(out, Event{Kind: k, Node: as})
+				return true
+			})
+			return out
+		}
+		apaths, _ := enumFunc(ap, aev, nil)
+		c.Sites += len(apaths)
+		badAdd := ""
+		nStore, nDup := 0, 0
+		dupAtom := eqAtom("nil", recvName(ap)+".qs.pendq.Ops["+aop+".Id]")
+		for _, p := range apaths {
+			rs, _ := p.EndNode.(*ast.ReturnStmt)
+			retNil := rs != nil && len(rs.Results) == 1 && isNilIdent(ainfo, rs.Results[0])
+			present := p.Entails(&FLit{dupAtom, 2, 1})
+			absent := p.Entails(&FLit{dupAtom, 2, 2})
+			switch {
+			case p.has("store-other"):
+				badAdd = "the pending queue is written with something other than {Op: the operation} under the operation's id: " + p.describe(c.P)
+			case present && !p.has("store") && !retNil:
+				nDup++
+			case absent && p.count("store") == 1 && retNil:
+				nStore++
+			default:
+				badAdd = "addPendingOp must reject an id that is already pending without overwriting it, and otherwise store the operation under its id: " + p.describe(c.P)
 			}
-			return true
-		})
-		c.Sites++
-		c.check(stores, rule, ap.Name, "stored under the operation's id", c.P.pos(ap.Decl.Pos()), "pendq.Ops[op.Id] = …", "addPendingOp does not store the operation under its own id")
+		}
+		c.check(badAdd == "" && nStore >= 1 && nDup >= 1, rule, ap.Name, "stored under the operation's id; a duplicate pending id is an error", c.P.pos(ap.Decl.Pos()), fmt.Sprintf("%d paths: pendq.Ops[op.Id] = {Op: op} ⇔ the id is not pending", len(apaths)), badAdd)
 	}
 }
 
@@ -317,7 +419,11 @@ func ruleResponseHandling(c *Ctx) {
 				if f, ok := calleeObj(info, y).(*types.Func); ok && recvTypeName(f) == "Client" {
 					switch f.Name() {
 					case "clearPendingOp", "clearPendingElection", "clearPendingSessionParams":
-						out = append(out, Event{Kind: f.Name(), Node: y})
+						var errObj types.Object
+						if as := assignedFromCall(info, n, y); len(as) == 2 {
+							errObj = as[1]
+						}
+						out = append(out, Event{Kind: f.Name(), Node: y, Data: errObj})
 					}
 				}
 			case *ast.AssignStmt:
@@ -341,13 +447,14 @@ func ruleResponseHandling(c *Ctx) {
 	bad := ""
 	// the loop over m.Result: per iteration exactly one clearPendingOp followed by exactly one result append
 	var loop *ast.RangeStmt
-	for _, st := range fi.Decl.Body.List {
-		if rs, ok := st.(*ast.RangeStmt); ok {
-			if o, p := selectorPath(info, rs.X); o == m && strings.Join(p, ".") == "Result" {
+	inspectNoFuncLit(fi.Decl.Body, func(n ast.Node) bool {
+		if rs, ok := n.(*ast.RangeStmt); ok && loop == nil {
+			if o, p := selectorPath(info, resolveLocal(info, fi.Decl, rs.X)); o == m && strings.Join(p, ".") == "Result" {
 				loop = rs
 			}
 		}
-	}
+		return true
+	})
 	if loop == nil {
 		c.vanished(rule, fi.Name, "loop over results", "no loop over m.Result")
 		return
@@ -360,6 +467,19 @@ func ruleResponseHandling(c *Ctx) {
 		}
 		if strings.Join(seq, ",") != "clearPendingOp,result" {
 			bad = "an AFTResult produces [" + strings.Join(seq, ",") + "], want exactly one dequeue decision followed by one result: " + p.describe(c.P)
+		}
+		// a result that cannot be accounted for (unknown id, duplicate terminal result) ends the handling with an
+		// error at once: carrying the error over to later results of the batch would let a later success overwrite it
+		if ci := idx(p, "clearPendingOp"); ci >= 0 {
+			errObj, _ := p.Events[ci].Data.(types.Object)
+			if errObj == nil {
+				bad = "the error of clearPendingOp is not kept"
+			} else if factsAfter(info, p, ci, len(p.Events)).Obj(errObj) != -1 {
+				rs, isRet := p.EndNode.(*ast.ReturnStmt)
+				if p.End != "return" || !isRet || len(rs.Results) != 1 || isNilIdent(info, rs.Results[0]) {
+					bad = "a result that matches no pending operation does not end the handling with an error (the loop goes on, and the error can be lost): " + p.describe(c.P)
+				}
+			}
 		}
 	}
 	c.check(bad == "", rule, fi.Name, "one dequeue decision and one result per AFTResult", c.P.pos(loop.Pos()), fmt.Sprintf("%d loop paths", len(lp)), bad)
@@ -457,22 +577,39 @@ func ruleConvergence(c *Ctx) {
 		return
 	}
 	info := aw.Pkg.TypesInfo
-	// the closure evaluated under the awaiting lock
-	var fl *ast.FuncLit
+	// the decision evaluated under the awaiting lock: a closure of AwaitConverged, or a method it calls
+	var fl *bodyRef
+	isConv := func(body *ast.BlockStmt, inf *types.Info) bool {
+		for _, call := range callsIn(body) {
+			if isMethod(calleeObj(inf, call), modPath+"/client", "Client", "isConverged") {
+				return true
+			}
+		}
+		return false
+	}
 	ast.Inspect(aw.Decl.Body, func(n ast.Node) bool {
-		if f, ok := n.(*ast.FuncLit); ok && fl == nil {
-			for _, call := range callsIn(f.Body) {
-				if isMethod(calleeObj(info, call), modPath+"/client", "Client", "isConverged") {
-					fl = f
+		if fl != nil {
+			return false
+		}
+		switch x := n.(type) {
+		case *ast.FuncLit:
+			if isConv(x.Body, info) {
+				fl = resolveFuncBody(aw, x)
+			}
+		case *ast.CallExpr:
+			if _, isLit := ast.Unparen(x.Fun).(*ast.FuncLit); !isLit {
+				if br := resolveFuncBody(aw, x.Fun); br != nil && br.Lit == nil && br.FI.Pkg == aw.Pkg && br.FI.Obj != aw.Obj && isConv(br.Body, br.FI.Pkg.TypesInfo) && br.FI.Obj.Name() != "isConverged" {
+					fl = br
 				}
 			}
 		}
 		return true
 	})
 	if fl == nil {
-		c.vanished(rule, aw.Name, "decision closure", "no closure calling isConverged")
+		c.vanished(rule, aw.Name, "decision closure", "no closure or method calling isConverged")
 		return
 	}
+	dfi := fl.FI // the declared function the decision is written in
 	// lock section: Lock awaiting as first statement, deferred Unlock
 	locked := false
 	if len(fl.Body.List) >= 2 {
@@ -487,12 +624,12 @@ func ruleConvergence(c *Ctx) {
 		}
 	}
 	c.Sites++
-	c.check(locked, rule, aw.Name, "errors and convergence are judged in one exclusive awaiting section", c.P.pos(fl.Pos()), "awaiting.Lock(); defer awaiting.Unlock()", "the convergence decision is not taken inside one exclusive section of the awaiting lock")
+	c.check(locked, rule, aw.Name, "errors and convergence are judged in one exclusive awaiting section", c.P.pos(fl.Body.Pos()), "awaiting.Lock(); defer awaiting.Unlock()", "the convergence decision is not taken inside one exclusive section of the awaiting lock")
 	aSend, _ := orderAtom("const:0", "len(call:hasErrors#1.0)")
 	aRecv, _ := orderAtom("const:0", "len(call:hasErrors#1.1)")
 	aConv := "b:call:isConverged#1"
 	runTable(c, tableSpec{
-		Rule: "TABLE-AWAIT", Fn: aw, Body: fl.Body.List, Construct: "AwaitConverged decision",
+		Rule: "TABLE-AWAIT", Fn: dfi, Body: fl.Body.List, Construct: "AwaitConverged decision",
 		Atoms: map[string]int{aSend: 3, aRecv: 3, aConv: 2},
 		Expected: func(v *Valuation) (string, bool) {
 			if v.Ord(aSend) < 0 || v.Ord(aRecv) < 0 {
@@ -514,15 +651,15 @@ func ruleConvergence(c *Ctx) {
 		s, r := objOfIdent(info, f["Send"]), objOfIdent(info, f["Recv"])
 		if sv, ok := s.(*types.Var); ok {
 			if rv, ok := r.(*types.Var); ok {
-				c1, i1 := soleTupleDef(info, aw.Decl, sv)
-				c2, i2 := soleTupleDef(info, aw.Decl, rv)
+				c1, i1 := soleTupleDef(info, dfi.Decl, sv)
+				c2, i2 := soleTupleDef(info, dfi.Decl, rv)
 				if c1 != nil && c1 == c2 && i1 == 0 && i2 == 1 {
 					good = true
 				}
 			}
 		}
 	}
-	c.check(good, rule, aw.Name, "returned error carries (send errors, receive errors) of hasErrors in that order", c.P.pos(fl.Pos()), "ClientErr{Send: #0, Recv: #1}", "the ClientErr returned by AwaitConverged does not carry hasErrors' (send, recv) lists in their slots")
+	c.check(good, rule, aw.Name, "returned error carries (send errors, receive errors) of hasErrors in that order", c.P.pos(fl.Body.Pos()), "ClientErr{Send: #0, Recv: #1}", "the ClientErr returned by AwaitConverged does not carry hasErrors' (send, recv) lists in their slots")
 	// hasErrors returns (sendErr, readErr)
 	he := c.need("client", "Client", "hasErrors")
 	if he != nil {
@@ -837,10 +974,10 @@ func ruleErrorsRecorded(c *Ctx) {
 				if prm == nil {
 					continue
 				}
-				if types.Identical(prm.Type(), types.Universe.Lookup("error").Type()) && p.Entails(&FLit{eqAtom(prm.Name(), "io.EOF"), 2, 2}) {
+				if types.Identical(prm.Type(), types.Universe.Lookup("error").Type()) && p.Entails(&FLit{eqAtom(varKey(prm), "io.EOF"), 2, 2}) {
 					orderly = true
 				}
-				if b, ok := prm.Type().Underlying().(*types.Basic); ok && b.Kind() == types.Bool && p.Entails(&FLit{"b:" + prm.Name(), 2, 1}) {
+				if b, ok := prm.Type().Underlying().(*types.Basic); ok && b.Kind() == types.Bool && p.Entails(&FLit{"b:" + varKey(prm), 2, 1}) {
 					orderly = true // !readOK: the request channel was closed by disconnect()
 				}
 			}
